@@ -865,6 +865,17 @@ VARIANTS = [
      rep_in(FHS, "_update_refs_file", "                        for cid_pid_line in ref_file.readlines()\n", "                        for cid_pid_line in ref_file.readlines(io.DEFAULT_BUFFER_SIZE)\n")),
     ("C15", None, "twin: readlines(-1) reads all lines",
      rep_in(FHS, "_update_refs_file", "                        for cid_pid_line in ref_file.readlines()\n", "                        for cid_pid_line in ref_file.readlines(-1)\n")),
+    ("C18", "C18.h", "membership helper reads the reference file with the utf-8-sig codec",
+     rep_in(FHS, "_is_string_in_refs_file", '        with open(refs_file_path, "r", encoding="utf8") as ref_file:\n', '        with open(refs_file_path, "r", encoding="utf-8-sig") as ref_file:\n')),
+    ("C18", None, "twin: membership helper spells the codec 'utf-8'",
+     rep_in(FHS, "_is_string_in_refs_file", '        with open(refs_file_path, "r", encoding="utf8") as ref_file:\n', '        with open(refs_file_path, "r", encoding="UTF-8") as ref_file:\n')),
+    ("C20", "C20.i", "client creates its log file with an exclusive create behind the existence test",
+     rep_in(CLI, "main", '        open(python_log_file_path, "w", encoding="utf-8").close()\n', '        open(python_log_file_path, "x", encoding="utf-8").close()\n')),
+    ("C08", "C08.h", "delete_object's missing-object branch holds a shared flock on the cid list while the update asks for the exclusive one",
+     rep_in(FHS, "delete_object", "                    if self._is_string_in_refs_file(pid, cid_ref_abs_path):\n                        self._update_refs_file(cid_ref_abs_path, pid, \"remove\")\n",
+            "                    with open(cid_ref_abs_path, \"r\", encoding=\"utf8\") as cid_ref_file:\n                        fcntl.flock(cid_ref_file.fileno(), fcntl.LOCK_SH)\n                        listed = any(line.strip() == pid for line in cid_ref_file)\n                        if listed:\n                            self._update_refs_file(cid_ref_abs_path, pid, \"remove\")\n                    if False:\n                        pass\n")),
+    ("C01", "C01.e", "temp file length reserved with posix_fallocate from the announced size",
+     rep_in(FHS, "_mktmpfile", "        tmp = NamedTemporaryFile(dir=path, delete=False)\n", "        tmp = NamedTemporaryFile(dir=path, delete=False)\n        os.posix_fallocate(tmp.fileno(), 0, 4096)\n")),
     ("C13", "C13.h", "return inside finally swallows the error",
      rep_in(FHS, "_delete_object_only", "        finally:\n            self._release_object_locked_cids(cid)\n", "        finally:\n            self._release_object_locked_cids(cid)\n            return\n")),
 ]
